@@ -53,8 +53,9 @@ inline void collect(Node& n, std::vector<Node*>& all, std::vector<Node*>& ints, 
 // nesting chain of `depth` levels around a small item, emitted directly as bytes (no recursion)
 inline std::string nest_chain(vf::Chooser& c, size_t depth) {
   std::string o;
-  uint64_t style = c.range(0, 5);   // 0 definite arrays, 1 indefinite arrays, 2 maps, 3 indefinite maps, 4 tags, 5 mixed
+  uint64_t style = c.range(0, 7);   // 0 definite arrays, 1 indefinite arrays, 2 maps, 3 indefinite maps, 4 tags, 5 mixed, 6 / 7 indefinite byte / text strings as chunks of each other (malformed)
   std::string tail;
+  if (style >= 6) { std::string o(depth, (char)(style == 6 ? 0x5F : 0x7F)); o.push_back((char)(style == 6 ? 0x41 : 0x61)); o.push_back('x'); if (c.coin()) o += std::string(depth, (char)0xFF); return o; }
   for (size_t i = 0; i < depth; i++) {
     uint64_t s = style == 5 ? (i * 7 + depth) % 5 : style;
     switch (s) {
